@@ -241,8 +241,8 @@ def c08(tier, hook=None):
         guises.append((n, "named", "attr" if n % 2 else "derive", False, None, None, "Tm", None, nm, False))
     for (n, kind) in ((1, "tuple"), (2, "named"), (3, "tuple")):
         guises.append((n, kind, "attr" if n % 2 else "derive", False, None, None, "Tm", None, None, True))
-    # sibling modules called `core` / `std` next to the struct (only absolute paths are safe)
-    for (n, kind) in ((1, "tuple"), (2, "named")):
+    # sibling modules called `core` / `std` next to the struct (only absolute paths are safe); C13's own scopes bring theirs
+    for (n, kind) in ((1, "tuple"), (2, "named")) if not hook else ():
         guises.append((n, kind, "attr" if n % 2 else "derive", False, None, None, "Tm", None, None, False, True))
     mods = [(i, rf.ops_module(i, g[0], g[1], g[2], generic=g[3], bounds=g[4], selfbound=(g[5] if len(g) > 5 else None),
                               leaf=(g[6] if len(g) > 6 else "Tm"), repr_=(g[7] if len(g) > 7 else None),
